@@ -10,6 +10,8 @@ Shapes: parameter lists of length 0..4, every placement of *args/**kwargs, every
 """
 import itertools
 
+import z3
+
 from pyvc.engine import ClassRef, Rec
 from pyvc.units import Setup, Unit
 
@@ -136,3 +138,265 @@ EXPLANATION = "under construction"
 ASSUMPTIONS = []
 TRUSTED = []
 BOUNDED = [{"name": "resolver-vs-interpreter-on-generated-programs", "script": "bounded/b13_kwargs_resolver.py"}]
+
+
+# ------------------------------------------------------------------------------------------------ group_parameters
+# **kwargs used in several places: a name keeps the (type, default) of the signature it comes from when every use that forwards
+# **kwargs accepts it with one type and at most one default - in particular a parameter required everywhere stays required;
+# otherwise it is offered as conditional, listing the defaults of its uses (and NOT_ACCEPTED when some use does not take it).
+EMPTY13 = Rec("inspect._empty")
+POPGET = "**.pop|get():"
+
+
+def gp_setup(ctx):
+    from pyvc.engine import ClassRef
+    n_lists = 2 + ctx.choose(2, "uses-of-kwargs")
+    popget = [ctx.choose(2, f"use{i}-is-a-kwargs.pop/get") == 1 for i in range(n_lists)]
+    occ = []
+    for i in range(n_lists):
+        occ.append(["absent", "required", "default-1", "default-2"][ctx.choose(4, f"p-in-use{i}")])
+    types = [["untyped", "int", "str"][ctx.choose(3, f"type-in-use{i}")] if occ[i] != "absent" else None for i in range(n_lists)]
+    d1, d2 = z3.Int("default1"), z3.Int("default2")
+    ctx.assume(d1 != d2)
+    tmap = {"untyped": EMPTY13, "int": ClassRef("int"), "str": ClassRef("str")}
+    lists, ps = [], []
+    for i in range(n_lists):
+        origin = (POPGET + f"use{i}") if popget[i] else f"use{i}"
+        lst = [Rec("ParamData", attrs={"name": f"own{i}", "kind": "KEYWORD_ONLY", "annotation": ClassRef("int"), "default": z3.Int(f"own{i}.default"), "origin": origin, "parent": f"P{i}", "component": f"C{i}", "doc": None})]
+        if occ[i] != "absent":
+            p = Rec("ParamData", attrs={"name": "p", "kind": "POSITIONAL_OR_KEYWORD", "annotation": tmap[types[i]], "default": {"required": EMPTY13, "default-1": d1, "default-2": d2}[occ[i]],
+                                        "origin": origin, "parent": f"P{i}", "component": f"C{i}", "doc": f"doc{i}" if i else None})
+            lst.append(p)
+            ps.append(p)
+        lst.append(Rec("ParamData", attrs={"name": f"posonly{i}", "kind": "POSITIONAL_ONLY", "annotation": EMPTY13, "default": EMPTY13, "origin": origin, "parent": None, "component": None, "doc": None}))
+        lists.append(lst)
+    snapshot = {id(p): dict(p.attrs) for p in ps}
+
+    def unique(c, a, k):
+        out = []
+        for x in a[0]:
+            if not any(x is y or (isinstance(x, ClassRef) and isinstance(y, ClassRef) and x.name == y.name) for y in out):
+                out.append(x)
+        return out
+
+    consts = {"param_kwargs_pop_or_get": POPGET, "kinds": Rec("kinds", attrs={k: k for k in ("POSITIONAL_ONLY", "POSITIONAL_OR_KEYWORD", "VAR_POSITIONAL", "KEYWORD_ONLY", "VAR_KEYWORD")}),
+              "inspect": Rec("inspect", attrs={"_empty": EMPTY13}), "Union": Rec("typing.Union", methods={"__getitem__": lambda c, s_, a, k: Rec("Union[...]", attrs={"args": a[0]})})}
+    import collections
+    calls = {"unique": unique, "defaultdict": lambda c, a, k: collections.defaultdict(list), "ConditionalDefault": lambda c, a, k: Rec("ConditionalDefault", attrs={"resolver": a[0], "data": list(a[1])})}
+    return Setup(env={"params_list": lists}, calls=calls, consts=consts, data=dict(n=n_lists, popget=popget, occ=occ, types=types, ps=ps, d1=d1, d2=d2, lists=lists, snapshot=snapshot, tmap=tmap))
+
+
+def gp_post(ctx, st, result):
+    d = st.data
+    tag = f"[uses:{['pop/get' if x else 'forward' for x in d['popget']]},p:{d['occ']},types:{d['types']}]"
+    names = [p.attrs["name"] for p in result] if isinstance(result, list) else None
+    want_names = []
+    for i in range(d["n"]):
+        for p in d["lists"][i]:
+            if p.attrs["kind"] != "POSITIONAL_ONLY" and p.attrs["name"] not in want_names:
+                want_names.append(p.attrs["name"])
+    ctx.oblige("post", "every-name-of-any-use(positional-only excluded)-is-offered-exactly-once,in-order-of-first-appearance" + tag, names == want_names)
+    if names != want_names or not d["ps"]:
+        return
+    g = next(p for p in result if p.attrs["name"] == "p")
+    first = d["snapshot"][id(d["ps"][0])]
+    forwards = sum(1 for x in d["popget"] if not x)
+    distinct_defaults = []
+    for p in d["ps"]:
+        dv = d["snapshot"][id(p)]["default"]
+        if dv is not EMPTY13 and not any(dv is x for x in distinct_defaults):
+            distinct_defaults.append(dv)
+    distinct_types = []
+    for p in d["ps"]:
+        tv = d["snapshot"][id(p)]["annotation"]
+        if tv is not EMPTY13 and not any(getattr(tv, "name", tv) == getattr(x, "name", x) for x in distinct_types):
+            distinct_types.append(tv)
+    unconditional = len(d["ps"]) >= forwards and len(distinct_types) <= 1 and len(distinct_defaults) <= 1
+    if unconditional:
+        ctx.oblige("post", "accepted-by-every-forwarding-use-with-one-type-and-at-most-one-default=>keeps-the-type-and-default-of-the-signature-it-comes-from(required stays required)" + tag,
+                   g is d["ps"][0] and g.attrs["default"] is first["default"] and g.attrs["annotation"] is first["annotation"] and g.attrs["origin"] is None)
+    else:
+        dflt = g.attrs["default"]
+        data = dflt.attrs["data"] if isinstance(dflt, Rec) and dflt.cls == "ConditionalDefault" else None
+        want = list(distinct_defaults) + (["NOT_ACCEPTED"] if len(d["ps"]) < forwards else [])
+        ctx.oblige("post", "otherwise-conditional:the-default-lists-exactly-the-defaults-of-its-uses(+NOT_ACCEPTED when some forwarding use does not take it)" + tag,
+                   data is not None and len(data) == len(want) and all(x is y or x == y for x, y in zip(data, want)) and isinstance(g.attrs["origin"], tuple) and len(g.attrs["origin"]) == len(d["ps"]))
+        if len(distinct_types) > 1:
+            ctx.oblige("post", "several-types=>the-union-of-them" + tag, isinstance(g.attrs["annotation"], Rec) and g.attrs["annotation"].cls == "Union[...]" and len(g.attrs["annotation"].attrs["args"]) == len(distinct_types))
+        else:
+            ctx.oblige("post", "one-type=>kept" + tag, g.attrs["annotation"] is first["annotation"])
+    own = [p for p in result if p.attrs["name"].startswith("own")]
+    ctx.oblige("post", "a-name-that-only-one-use-takes-is-conditional-iff-other-forwarding-uses-exist" + tag,
+               all((p.attrs["origin"] is None) == (1 >= forwards) for p in own))
+
+
+def gp_raises(ctx, st, exc):
+    ctx.oblige("raises", f"never-raises(got {exc.cls}@{exc.origin})", False)
+
+
+UNITS.append(Unit("C13", "jsonargparse._parameter_resolvers:group_parameters", gp_setup, gp_post, gp_raises, max_paths=100000, split=2,
+                  trusted=["unique(): distinct items in order of first appearance", "ConditionalDefault(resolver, defaults) only records the defaults"]))
+
+
+# ------------------------------------------------------------------------------------------------ MRO cursor: ast_is_supported_super_call / get_mro_parameters / mro_context
+# Which class a super().__init__(**kwargs) reaches is decided by a cursor (classes, idx) into the MRO of the class being resolved:
+#   super()                 -> the next class after the cursor that defines the method itself
+#   super(X, self)          -> the cursor moves to X (searched from the cursor onwards), so the next class is the one after X
+def mro_classes():
+    obj_init = Rec("object.__init__")
+    defs = {}
+    classes = [Rec(f"class K{i}", attrs={"__name__": f"K{i}"}) for i in range(4)]
+    return classes, obj_init, defs
+
+
+class Cursor:
+    def __init__(self, value):
+        self.value = value
+        self.sets = 0
+
+    def rec(self):
+        return Rec("ContextVar current_mro", methods={"get": lambda c, s_, a, k: self.value, "set": lambda c, s_, a, k: self._set(a[0]), "reset": lambda c, s_, a, k: self._reset(a[0])})
+
+    def _set(self, v):
+        tok = Rec("Token", attrs={"old": self.value})
+        self.value = v
+        self.sets += 1
+        return tok
+
+    def _reset(self, tok):
+        self.value = tok.attrs["old"]
+
+
+def ssc_setup(ctx):
+    classes, _, _ = mro_classes()
+    idx = ctx.choose(3, "cursor")
+    form = ["super()", "super(X, self)", "super(X, other)", "super(X)", "super(X, self, kw=1)", "super(f(), self)"][ctx.choose(6, "form")]
+    xpos = ["at-cursor", "after-cursor", "last", "before-cursor", "not-in-the-mro", "name-shadowed-in-the-module"][ctx.choose(6, "X")] if form == "super(X, self)" else "after-cursor"
+    pos = {"at-cursor": idx, "after-cursor": idx + 1, "last": 3, "before-cursor": idx - 1, "not-in-the-mro": None, "name-shadowed-in-the-module": idx + 1}[xpos]
+    if pos is not None and pos < 0:
+        pos, xpos = None, "not-in-the-mro"
+    xname = classes[pos].attrs["__name__"] if pos is not None else "Foreign"
+    module = Rec("module", attrs={c.attrs["__name__"]: c for c in classes})
+    if xpos == "name-shadowed-in-the-module":
+        module.attrs[xname] = Rec("another object with that name")
+    ctx.classes.add("Name", ["object"])
+    ctx.classes.add("Call", ["object"])
+    name = lambda s: Rec("Name", attrs={"id": s})  # noqa: E731
+    args = {"super()": [], "super(X, self)": [name(xname), name("self")], "super(X, other)": [name(xname), name("other")], "super(X)": [name(xname)],
+            "super(X, self, kw=1)": [name(xname), name("self")], "super(f(), self)": [Rec("Call"), name("self")]}[form]
+    keywords = [Rec("keyword")] if form == "super(X, self, kw=1)" else []
+    node = Rec("Call", attrs={"func": Rec("Attribute", attrs={"value": Rec("Call", attrs={"args": args, "keywords": keywords})})})
+    cur = Cursor((classes, idx))
+    logged = []
+    from pyvc.engine import ClassRef as CR, Fn
+    consts = {"current_mro": cur.rec(), "ast": Rec("module ast", attrs={"Name": CR("Name")})}
+    calls = {"inspect.getmodule": lambda c, a, k: module, "ast_str": lambda c, a, k: "super(...)"}
+    return Setup(env={"node": node, "self_name": "self", "log_debug": Fn(lambda c, a, k: logged.append(a[0]), "log_debug")}, calls=calls, consts=consts,
+                 data=dict(classes=classes, idx=idx, form=form, xpos=xpos, pos=pos, cur=cur, logged=logged))
+
+
+def ssc_post(ctx, st, result):
+    d = st.data
+    tag = f"[{d['form']},X:{d['xpos']},cursor:{d['idx']}]"
+    cur = d["cur"].value
+    if d["form"] == "super()":
+        ctx.oblige("post", "plain-super()-is-supported-and-leaves-the-cursor-where-it-is" + tag, result is True and cur[0] is d["classes"] and cur[1] == d["idx"] and d["cur"].sets == 0)
+        return
+    supported = d["form"] == "super(X, self)" and d["xpos"] in ("at-cursor", "after-cursor", "last")
+    ctx.oblige("post", "super(X, self)-is-supported-iff-X-is-a-class-of-the-MRO-at-or-after-the-cursor(the very class the module exposes under that name)" + tag, result is supported)
+    if supported:
+        ctx.oblige("post", "the-cursor-moves-to-X(an absolute position in the MRO):the-next-class-is-the-one-after-X" + tag, cur[0] is d["classes"] and cur[1] == d["pos"])
+    else:
+        ctx.oblige("post", "an-unsupported-call-leaves-the-cursor-alone-and-is-logged" + tag, cur[1] == d["idx"] and d["cur"].sets == 0 and len(d["logged"]) == 1)
+
+
+def never13(ctx, st, exc):
+    ctx.oblige("raises", f"never-raises(got {exc.cls}@{exc.origin})", False)
+
+
+UNITS.append(Unit("C13", "jsonargparse._parameter_resolvers:ast_is_supported_super_call", ssc_setup, ssc_post, never13, max_paths=5000,
+                  trusted=["inspect.getmodule(cls) is the module that defines the class; ast node shapes as produced by ast.parse"]))
+
+
+def gmp_setup(ctx):
+    classes, obj_init, _ = mro_classes()
+    idx = ctx.choose(4, "cursor")
+    # which classes define the method themselves (others inherit it from the next definer, at the end from object)
+    defines = [ctx.choose(2, f"K{i}-defines-the-method") == 1 for i in range(4)]
+    method_is_init = ctx.choose(2, "method") == 0
+    meths = [None] * 4
+    nxt = obj_init if method_is_init else None
+    for i in reversed(range(4)):
+        if defines[i]:
+            nxt = Rec(f"K{i}.method")
+        meths[i] = nxt
+    mname = "__init__" if method_is_init else "setup"
+    for c, m in zip(classes, meths):
+        if m is not None:
+            c.attrs[mname] = m
+    cur = Cursor((classes, idx))
+    params = Rec("parameters of the class found")
+
+    def get_parameters_fn(c, a, k):
+        c.event("get-parameters", a[0], a[1], k.get("logger"))
+        return params
+
+    from pyvc.engine import Fn
+    logger = Rec("logger")
+    consts = {"current_mro": cur.rec(), "object": Rec("class object", attrs={"__init__": obj_init})}
+    return Setup(env={"method_name": mname, "get_parameters_fn": Fn(get_parameters_fn, "get_parameters_fn"), "logger": logger}, consts=consts,
+                 data=dict(classes=classes, idx=idx, defines=defines, meths=meths, cur=cur, params=params, logger=logger, method_is_init=method_is_init))
+
+
+def gmp_post(ctx, st, result):
+    d = st.data
+    tag = f"[cursor:{d['idx']},definers:{[i for i in range(4) if d['defines'][i]]},{'__init__' if d['method_is_init'] else 'other method'}]"
+    nxt = next((i for i in range(d["idx"] + 1, 4) if d["defines"][i]), None)
+    ev = [e for e in ctx.events if e[0] == "get-parameters"]
+    if nxt is None:
+        ctx.oblige("post", "no-class-after-the-cursor-defines-the-method=>no-parameters,cursor-unchanged" + tag, result == [] and not ev and d["cur"].value[1] == d["idx"])
+    else:
+        ctx.oblige("post", "the-parameters-are-those-of-the-next-class-after-the-cursor-that-defines-the-method-itself(inherited definitions are skipped)" + tag,
+                   result is d["params"] and len(ev) == 1 and ev[0][1] is d["classes"][nxt] and ev[0][2] is d["meths"][nxt] and ev[0][3] is d["logger"])
+        ctx.oblige("post", "the-cursor-moves-to-that-class(so that its own super() continues from there)" + tag, d["cur"].value[0] is d["classes"] and d["cur"].value[1] == nxt)
+
+
+UNITS.append(Unit("C13", "jsonargparse._parameter_resolvers:get_mro_parameters", gmp_setup, gmp_post, never13, max_paths=5000,
+                  trusted=["getattr(cls, name) returns the definition inherited from the nearest definer in the MRO (object's for __init__)"]))
+
+
+def mc_setup(ctx):
+    classes, _, _ = mro_classes()
+    state = ["no-cursor-yet", "cursor-at-parent", "cursor-at-another-class", "no-parent"][ctx.choose(4, "state")]
+    parent = None if state == "no-parent" else classes[0]
+    other = [Rec("class Other"), classes[0]]
+    init = {"no-cursor-yet": (None, None), "cursor-at-parent": (classes, 0), "cursor-at-another-class": (other, 0), "no-parent": (classes, 1)}[state]
+    cur = Cursor(init)
+    obj = Rec("class object")
+
+    def at_yield(ctx_, interp, value, e):
+        v = cur.value
+        if state in ("no-cursor-yet", "cursor-at-another-class"):
+            ctx_.oblige("yield", f"inside-the-body:the-cursor-is-at-the-start-of-the-parent's-MRO(without object)[{state}]", isinstance(v[0], list) and len(v[0]) == 4 and all(a is b for a, b in zip(v[0], classes)) and v[1] == 0)
+        else:
+            ctx_.oblige("yield", f"inside-the-body:a-cursor-that-already-stands-at-the-parent(or no parent)-is-kept[{state}]", v is init)
+
+    calls = {"inspect.getmro": lambda c, a, k: tuple(classes) + (obj,)}
+    return Setup(env={"parent": parent}, calls=calls, consts={"current_mro": cur.rec(), "object": obj}, hooks={"yield": at_yield}, data=dict(cur=cur, init=init, state=state))
+
+
+def mc_post(ctx, st, result):
+    d = st.data
+    ctx.oblige("post", f"normal-exit:the-cursor-is-what-it-was-before[{d['state']}]", d["cur"].value is d["init"])
+
+
+def mc_raises(ctx, st, exc):
+    d = st.data
+    if exc.cls == "<Any>":
+        ctx.oblige("post", f"exception-from-the-body:the-cursor-is-what-it-was-before[{d['state']}]", d["cur"].value is d["init"])
+    else:
+        ctx.oblige("raises", f"no-own-exception(got {exc.cls}@{exc.origin})", False)
+
+
+UNITS.append(Unit("C13", "jsonargparse._parameter_resolvers:mro_context", mc_setup, mc_post, mc_raises, expect_cover=("return", "raise:<Any>"),
+                  trusted=["ContextVar get/set/reset with a token; inspect.getmro(parent) ends with object"]))
